@@ -469,7 +469,43 @@ pub fn run(ctx: &Ctx) -> Report {
         }
     }
     let nq = qs.len();
-    let (mut st, done) = par_for(ctx, cases.len(), |i, st| {
+    // structured family
+    let ns: Vec<usize> = if thorough { vec![127, 128, 129, 1023, 1024, 1025, 4095, 4096, 4097, 5000] } else { vec![129, 1025, 4097] };
+    let mut scases = vec![];
+    for &n in &ns {
+        for nseg in 1..=(if thorough { 3 } else { 2 }) {
+            for del in 0..3 {
+                scases.push((n, nseg, del));
+            }
+        }
+    }
+    let (mut st, done2) = par_for(ctx, scases.len(), |i, st| {
+        let (n, nseg, del) = scases[i];
+        let docs = structured_docs(n);
+        let layout = structured_layout(n, nseg, del);
+        let b = build_index(&docs, &layout);
+        st.count("structured_indexes");
+        let sq = structured_queries(n);
+        for (qi, q) in sq.iter().enumerate() {
+            st.eval();
+            st.count("structured_queries");
+            let m = b.alive.iter().filter(|d| eval(q, d) != Tri::No).count();
+            if m > 0 && m < b.alive.len() {
+                st.nontrivial(&("s", i, qi));
+            }
+            if let Some((rule, what)) = check_query(&b, q, qi % 8 == 0) {
+                let rule = classify(&rule, q);
+                let what: String = what.chars().take(300).collect();
+                st.violation(Violation::new(
+                    &rule,
+                    format!("structured n={n} segments={nseg} delete_mode={del} query {}: {what}", show(q)),
+                    json!({"kind":"structured","n":n,"nseg":nseg,"del_mode":del,"query":q}),
+                ));
+            }
+        }
+        st.sample(json!({"kind":"structured","n":n,"nseg":nseg,"del_mode":del,"queries":sq.len()}));
+    });
+    let (st_tiny, done) = par_for(ctx, cases.len(), |i, st| {
         let c = &cases[i];
         let docs = tiny_docs(&c.texts);
         let b = build_index(&docs, &c.layout);
@@ -496,43 +532,7 @@ pub fn run(ctx: &Ctx) -> Report {
             st.sample(json!({"kind":"tiny","texts":c.texts,"layout":c.layout,"query":qs[(i * 7) % nq]}));
         }
     });
-    // structured family
-    let ns: Vec<usize> = if thorough { vec![127, 128, 129, 1023, 1024, 1025, 4095, 4096, 4097, 5000] } else { vec![129, 1025, 4097] };
-    let mut scases = vec![];
-    for &n in &ns {
-        for nseg in 1..=(if thorough { 3 } else { 2 }) {
-            for del in 0..3 {
-                scases.push((n, nseg, del));
-            }
-        }
-    }
-    let (st2, done2) = par_for(ctx, scases.len(), |i, st| {
-        let (n, nseg, del) = scases[i];
-        let docs = structured_docs(n);
-        let layout = structured_layout(n, nseg, del);
-        let b = build_index(&docs, &layout);
-        st.count("structured_indexes");
-        let sq = structured_queries(n);
-        for (qi, q) in sq.iter().enumerate() {
-            st.eval();
-            st.count("structured_queries");
-            let m = b.alive.iter().filter(|d| eval(q, d) != Tri::No).count();
-            if m > 0 && m < b.alive.len() {
-                st.nontrivial(&("s", i, qi));
-            }
-            if let Some((rule, what)) = check_query(&b, q, qi % 8 == 0) {
-                let rule = classify(&rule, q);
-                let what: String = what.chars().take(300).collect();
-                st.violation(Violation::new(
-                    &rule,
-                    format!("structured n={n} segments={nseg} delete_mode={del} query {}: {what}", show(q)),
-                    json!({"kind":"structured","n":n,"nseg":nseg,"del_mode":del,"query":q}),
-                ));
-            }
-        }
-        st.sample(json!({"kind":"structured","n":n,"nseg":nseg,"del_mode":del,"queries":sq.len()}));
-    });
-    st.merge(st2);
+    st.merge(st_tiny);
     rep.set("exhaustive", done == cases.len() && done2 == scases.len());
     rep.set("tiny_indexes", cases.len() as u64);
     rep.set("tiny_indexes_completed", done as u64);
